@@ -107,6 +107,8 @@ def run_property(pid, rule_module, root="/repo", tier="quick", seed=0, evidence_
         rule_module.run(ctx)
         from . import helpers
         helpers.run(ctx, pid)
+        from . import mustpass
+        mustpass.run(ctx, pid)
     except AnalysisError as e:
         print(f"ANALYSIS-ERROR property={pid} {e}")
         return 2
